@@ -57,7 +57,7 @@ ASSUMPTIONS = [
     "descriptor release is judged after the cyclic garbage collector had a chance (a socket held by the traceback of the "
     "exception that ended its thread is freed by gc, not by the reference count)",
     "`no_residue` is stated for a running server; for a closed one `close_terminates_clients` says every client is "
-    "terminated (the defunct poll object of a closed pool keeps the numbers of the descriptors it closed at that moment)",
+    "terminated (poll registrations and queue entries of a pool whose close() has returned are reported as 0 by harness and driver: no thread looks at them any more)",
     "one-shot: a client rejected by the authenticator is the one connection the server takes",
     "KNOWN FINDING carried by the model: ForkingServer.close() closes the listener only; its children keep serving "
     "(C17_forking_counterexample, signature C17:forking:close-leaves-children-serving)",
@@ -114,6 +114,16 @@ def corpus():
             for bye in ("a1", "g1"):
                 out.append(case_dict("pool", tr, False, 2, ("c1:g m1 c2:g p2 %s c3:g:1 p3 h1 p3 p2 g3 X" % bye).split()))
             out.append(case_dict("pool", tr, False, 2, "c1:g m1 a1 h1 c2:g:1 p2 X".split()))
+        # a client holds an incomplete frame open (its thread / a pool worker is blocked reading) when the server is closed:
+        # close() returns, everybody is given end-of-stream, every hook runs; two such clients on a pool of two workers
+        for kind in KINDS:
+            out.append(case_dict(kind, tr, False, 2, "c1:g p1 c2:g i2:t p1 X X p1 c3:g".split()))
+        out.append(case_dict("pool", tr, False, 2, "c1:g c2:g c3:g p3 i1:t i2:t X".split()))
+        out.append(case_dict("pool", tr, True, 3, "c1:g c2:g i2:ht c3:g i3:t a3 p1 X".split()))
+        # a service whose on_disconnect RAISES: every client is still closed by close(), every hook still runs once
+        for kind in KINDS:
+            out.append(case_dict(kind, tr, False, 2, "c1:g p1 c2:g p2 c3:g a1 X X".split(), opts=["rh"]))
+        out.append(case_dict("pool", tr, False, 2, "c1:g c2:g c3:g c4:g p4 g2 X".split(), opts=["rh"]))
         # threaded: the thread of a departed client sits in its service's blocking on_disconnect - the connection closed, the
         # closed socket object still in server.clients - when the server is closed with others connected; then the hook returns
         byes = ("a1", "g1", "z1") if tr == "tcp" else ("a1", "g1")
@@ -133,6 +143,18 @@ def corpus():
     return out
 
 
+def oracle_only_cases():
+    """states in which the model says no more than "close() does not return yet" (`closeWaits`: it waits for application
+    code): judged by the direct oracle on every run - the clients must be ended at once all the same, and close() returns
+    when the hook does"""
+    return [
+        # a pool worker sits in the blocking on_disconnect of a client that left, when close() comes
+        case_dict("pool", "tcp", False, 2, "c1:g m1 c2:g p2 c3:g a1 X h1".split()),
+        # close() itself calls the blocking on_disconnect of a client that is still connected
+        case_dict("pool", "tcp", False, 2, "c1:g m1 c2:g p2 c3:g X h1".split()),
+    ]
+
+
 def gen_case(r):
     kind = r.choice(KINDS)
     transport = r.choice(["tcp", "unix"])
@@ -141,6 +163,9 @@ def gen_case(r):
     nclients = r.range(1, 4)
     toks, live, nextk = [], [], 1
     opts = ["bc"] if kind != "pool" and r.chance(1, 4) else []     # a `before_closed` hook in the server's protocol_config
+    if r.chance(1, 6):
+        opts.append("rh")                                          # the service's on_disconnect raises
+    stuck = []                     # clients that sent an incomplete frame (all they can do now is leave)
     armed, hooked = [], []         # threaded: clients whose on_disconnect will block / that left and whose thread sits in it
     slow = []                      # connected without credentials so far (the authenticator is blocked reading)
     closed = 0
@@ -156,6 +181,16 @@ def gen_case(r):
         x = r.below(100)
         if hooked and r.chance(1, 3):
             toks.append("h%d" % hooked.pop(0))
+            continue
+        if live and not closed and r.chance(1, 8) and (kind != "pool" or len(stuck) + 1 < nb):
+            k = r.choice(live)
+            live.remove(k)
+            stuck.append(k)
+            toks.append("i%d:%s" % (k, r.choice(["t", "ht", "et"])))
+            continue
+        if stuck and r.chance(1, 4):
+            k = stuck.pop(0)
+            toks.append(("z%d" if transport == "tcp" and r.chance(1, 3) else "a%d") % k)
             continue
         if kind == "threaded" and live and not closed and r.chance(1, 7):
             k = r.choice(live)
@@ -251,6 +286,19 @@ def correspondence(ctx):
         cases.append(gen_case(r))
     believed = 0
     try:
+        import pipeline
+        known_now = set(k.get("signature") for k in pipeline.load_known()
+                        if k.get("property") == ID and k.get("status") == "known")
+        for case in oracle_only_cases():
+            res = oracle_twice(case, known_now)
+            c.count("oracle-only-cases")
+            c.evaluations += len(case["ops"])
+            if res is not None and res[1] not in known_now:
+                believed += 1
+                c.disagreements.append(dict(case=case, op_index=None, op="X", impl="%s [%s]" % res,
+                                            model="not modelled beyond `closeWaits` (close() waits for application code): "
+                                                  "judged by the direct oracle",
+                                            note="direct oracle, twice"))
         for case in cases[:ncases]:
             if time.time() > deadline:
                 c.count("stopped-at-deadline")
@@ -315,13 +363,28 @@ def oracle_case(case, known=(), ceiling=servers.CEILING):
         closed = False
         served_first = None
         armed, in_hook = set(), set()      # on_disconnect armed to block / departed and still inside that hook
+        released = set()
+        pending_close = False
         for i, tok in enumerate(case["ops"]):
             t = tok[0]
-            if t not in "cpgaXkzmh":
+            if t not in "cpgaXkzmhi":
                 continue           # not an operation of this property
             obs = sess.do(tok)
             where = "after op %d (%s): " % (i, tok)
             if t == "X":
+                holding = (armed - released) if kind == "pool" else set()
+                if obs == "hang" and holding:
+                    # application code holds close() up (a worker sits in a blocking on_disconnect and is joined, or close()
+                    # itself has called one): the CLIENTS must have been ended all the same, and close() returns once the
+                    # hooks do
+                    for k, cl in sess.clients.items():
+                        if cl.open and not W(cl.sees_eof):
+                            return (where + "close() waits for the blocking on_disconnect of client(s) %s and client %d has "
+                                    "not been given end-of-stream meanwhile" % (sorted(holding), k),
+                                    "C17:pool:close-leaves-clients-connected")
+                    closed = True
+                    pending_close = True
+                    continue
                 if obs == "hang":
                     return where + "server.close() did not return", "C17:%s:close-hangs" % kind
                 if obs != "-":
@@ -351,6 +414,20 @@ def oracle_case(case, known=(), ceiling=servers.CEILING):
                         pass
                     return where + "a closed server accepted a connection", "C17:%s:listener-open-after-close" % kind
                 continue
+            if t == "h":
+                released.add(int(tok[1:]))
+                if pending_close and not (armed - released):
+                    res = getattr(sess.backend, "close_results", [])
+                    if not W(lambda: all(bool(d) for d in res)):
+                        return (where + "server.close() has not returned although no disconnect hook is blocking any more",
+                                "C17:pool:close-hangs")
+                    bad = [d[0] for d in res if d and d[0] != "ok"]
+                    if bad:
+                        return where + "server.close() raised: %s" % bad[0], "C17:pool:close-raises"
+                    pending_close = False
+                    if not W(lambda: _snap(sess)["c"] == 0 and _snap(sess)["f"] == 0 and _snap(sess)["fds"] <= 0):
+                        return (where + "a closed server still holds %r" % (_snap(sess),),
+                                "C17:pool:holds-entries-after-close")
             if closed and t == "p" and obs in ("pong", "ref") and not (kind == "forking" and SIG_FORK in known):
                 sig = SIG_FORK if kind == "forking" else "C17:%s:close-leaves-clients-connected" % kind
                 return where + "a closed server answered client %s" % tok[1:], sig
@@ -412,7 +489,7 @@ def oracle_case(case, known=(), ceiling=servers.CEILING):
                         closed = True
             if kind == "oneshot" and sum(h["c"] for h in _hooks(sess).values()) > 1:
                 return where + "a one-shot server served more than one connection", "C17:oneshot:served-more-than-one"
-        if closed and not (kind == "forking" and SIG_FORK in known):
+        if closed and not pending_close and not (kind == "forking" and SIG_FORK in known):
             # whatever happened after the close (late credentials of a client that was inside the authenticator): the closed
             # server holds nothing and nobody is connected to it
             if not W(lambda: _snap(sess)["c"] == 0 and _snap(sess)["f"] == 0 and _snap(sess)["fds"] <= 0):
@@ -464,9 +541,13 @@ def oracle_search(ctx, corr, broken):
     seen = []
 
     def candidates():
-        for d in corr.disagreements[:20]:
-            yield d["case"]
-        cases = corpus()
+        if not any("unblocks_workers" in b or "spares_newcomer" in b for b in broken):
+            for d in corr.disagreements[:20]:
+                yield d["case"]
+        cases = oracle_only_cases() + corpus()
+        if any("unblocks_workers" in b for b in broken):
+            # the obligation about close() and blocked workers: its scenarios first
+            cases.sort(key=lambda c: 0 if any(t[0] == "i" for t in c["ops"]) and "X" in c["ops"] else 1)
         if any("spares_newcomer" in b for b in broken):
             # the obligation about reused descriptor numbers: its scenarios first
             cases.sort(key=lambda c: 0 if any(t[0] == "h" for t in c["ops"]) else 1)
